@@ -755,3 +755,39 @@ Proof.
   eapply Forall_impl; [|exact Hnf]. intros m Hm. cbv beta in Hm.
   right. apply no_floats_oracles. exact Hm.
 Qed.
+
+(* every message sml.Parse returns, with the float-oracle hypotheses on its float values, is `msg_good` *)
+Lemma parsed_messages_good alnum floats fl input : floats_wf floats ->
+  Forall (fun m => m_item m = IEmpty \/ (scans floats fl (m_item m) /\ floats_lex alnum fl (m_item m))) (r_msgs (sml_parse alnum floats input)) ->
+  Forall (msg_good alnum floats fl) (r_msgs (sml_parse alnum floats input)).
+Proof.
+  intros Hwf Hor. pose proof (parsed_messages_printable alnum floats input Hwf) as Hall.
+  rewrite Forall_forall in *. intros m Hin. destruct (Hall m Hin) as (Hok & Hsid & Hsys & Hit & Hnm). pose proof (Hor m Hin) as Hfl.
+  split; [|split; [|exact Hnm]].
+  - split; [exact Hok|]. split; [exact Hsid|]. split; [exact Hsys|].
+    destruct Hit as [E|[Hp [Hc _]]]; [left; exact E|right].
+    destruct Hfl as [E|[Hs _]]; [rewrite E in Hp; contradiction|]. split; [exact Hp|split; [exact Hs|exact Hc]].
+  - destruct Hit as [E|[Hp [_ Hn]]]; [left; exact E|right].
+    destruct Hfl as [E|[_ Hf]]; [rewrite E in Hp; contradiction|]. apply lexable_of_names; assumption.
+Qed.
+
+(* C19 for the canonical layout of arbitrary accepted texts: the printed forms
+   of what two texts parse to, one after the other, parse to the messages of
+   the first text followed by the messages of the second *)
+Theorem concat_of_accepted alnum floats fl t1 t2 : floats_wf floats ->
+  let m1 := r_msgs (sml_parse alnum floats t1) in
+  let m2 := r_msgs (sml_parse alnum floats t2) in
+  Forall (fun m => no_floats (m_item m)) m1 -> Forall (fun m => no_floats (m_item m)) m2 ->
+  let r := sml_parse alnum floats (msgs_text fl m1 ++ msgs_text fl m2) in
+  r_msgs r = m1 ++ m2 /\ r_errs r = [] /\ r_warns r = [].
+Proof.
+  intros Hwf m1 m2 H1 H2.
+  assert (G : forall input, Forall (fun m => no_floats (m_item m)) (r_msgs (sml_parse alnum floats input)) ->
+              Forall (msg_good alnum floats fl) (r_msgs (sml_parse alnum floats input))).
+  { intros input H. apply parsed_messages_good; [exact Hwf|]. eapply Forall_impl; [|exact H].
+    intros m Hm. right. apply no_floats_oracles. exact Hm. }
+  destruct (concat_printed alnum floats fl m1 m2 (G t1 H1) (G t2 H2)) as (A & B' & C).
+  destruct (print_parse_messages alnum floats fl m1 (G t1 H1)) as (A1 & _).
+  destruct (print_parse_messages alnum floats fl m2 (G t2 H2)) as (A2 & _).
+  cbv zeta in *. rewrite A, A1, A2. repeat split; assumption.
+Qed.
